@@ -202,6 +202,53 @@ mod opt {
         }
     }
 
+    // Groups on raw-identifier modules: the group's raw name keeps the `r#`
+    // (that is what `insert_group` matches against the module path), the
+    // display name drops it.
+    #[divan::bench_group(sample_count = 3, sample_size = 2)]
+    pub mod r#match {
+        use super::ran;
+
+        /// both from the group on `mod r#match`
+        #[divan::bench]
+        fn inherit() {
+            ran("hx_select_e2e::opt::match::inherit")
+        }
+
+        #[divan::bench(sample_size = 4)]
+        fn size4() {
+            ran("hx_select_e2e::opt::match::size4")
+        }
+    }
+
+    pub mod outer {
+        #[divan::bench_group(sample_count = 2, sample_size = 3)]
+        pub mod r#loop {
+            use super::super::ran;
+
+            #[divan::bench]
+            fn inherit() {
+                ran("hx_select_e2e::opt::outer::loop::inherit")
+            }
+        }
+    }
+
+    #[divan::bench_group(sample_count = 1, sample_size = 1)]
+    #[ignore]
+    pub mod r#where {
+        use super::ran;
+
+        #[divan::bench]
+        fn inherit() {
+            ran("hx_select_e2e::opt::where::inherit")
+        }
+
+        #[divan::bench(ignore = false)]
+        fn unignored() {
+            ran("hx_select_e2e::opt::where::unignored")
+        }
+    }
+
     #[divan::bench_group(sample_count = 4, sample_size = 2)]
     pub mod g1 {
         use super::ran;
